@@ -751,12 +751,26 @@ impl MutableArchive {
                         None
                     };
 
-                    let filename = filename.unwrap_or_else(|| {
-                        // Generate placeholder name if not found in listfile
-                        generate_anonymous_filename(
-                            ((entry.name_1 as u64) << 32 | entry.name_2 as u64) as u32,
-                        )
+                    // Special files are not necessarily listed
+                    let filename = filename.or_else(|| {
+                        ["(listfile)", "(attributes)", "(signature)"]
+                            .iter()
+                            .find(|n| {
+                                entry.name_1 == hash_string(n, hash_type::NAME_A)
+                                    && entry.name_2 == hash_string(n, hash_type::NAME_B)
+                            })
+                            .map(|n| n.to_string())
                     });
+
+                    // Without its name a file cannot be carried over: the rebuilt archive would
+                    // hold it under a placeholder name and it would be lost under its own.
+                    // Refuse (nothing has been replaced yet) instead of dropping files.
+                    let Some(filename) = filename else {
+                        return Err(Error::invalid_format(format!(
+                            "cannot compact: no name is known for hash table entry {hash_idx} \
+                             (archive without a complete (listfile))"
+                        )));
+                    };
 
                     files_to_copy.push((hash_idx, block_idx, filename, *entry, *block));
                 }
